@@ -50,6 +50,10 @@ type pieceReader struct {
 	i      int
 	zeroes int
 	eofw   bool
+	// polling mode: (0, nil) before every piece of at most piece bytes
+	zeroEvery bool
+	piece     int
+	polled    bool
 }
 
 func (r *pieceReader) Read(p []byte) (int, error) {
@@ -63,7 +67,15 @@ func (r *pieceReader) Read(p []byte) (int, error) {
 		r.zeroes--
 		return 0, nil
 	}
+	if r.zeroEvery && !r.polled {
+		r.polled = true
+		return 0, nil
+	}
+	r.polled = false
 	n := len(p)
+	if r.zeroEvery && r.piece < n {
+		n = r.piece
+	}
 	if r.i < len(r.sizes) && r.sizes[r.i] < n {
 		n = r.sizes[r.i]
 	}
@@ -157,7 +169,7 @@ func genProg(tp *core.Tape, idx int, ep *core.Episode, method string) *respProg 
 	}
 	body := core.PatternBytes(byte(50+idx), size)
 	mkReader := func() io.Reader {
-		ek := tp.Choose("reofw", 3) // 0/1 as before (recorded tapes); 2: the stream also implements io.WriterTo
+		ek := tp.Choose("reofw", 4) // 0/1 as before (recorded tapes); 2: the stream also implements io.WriterTo; 3: a polling stream
 		r := &pieceReader{data: append([]byte(nil), body...), zeroes: zeroReads(ep, tp), eofw: ek == 1}
 		for i := 0; i < 5; i++ {
 			r.sizes = append(r.sizes, 1+tp.Choose("rsz", 6000))
@@ -165,6 +177,12 @@ func genProg(tp *core.Tape, idx int, ep *core.Episode, method string) *respProg 
 		if ek == 2 {
 			ep.Probe("stream-writer-to")
 			return &writerToReader{r}
+		}
+		if ek == 3 {
+			// one empty read before every piece, and well over a hundred pieces: legal (never two empty reads in a row)
+			r.zeroes, r.zeroEvery, r.sizes = 0, true, nil
+			r.piece = 1 + len(body)/(120+tp.Choose("npieces", 200))
+			ep.Probe("stream-polling")
 		}
 		return r
 	}
